@@ -169,7 +169,7 @@ def save_parangonada_csv(
             os.path.join(outdir, "ppart.csv"),
             # outdir + os.path.sep + "perf_note_array.csv",
             perf_note_array[valid_perf_note_array_fields],
-            fmt="%.20s",
+            fmt="%s",
             delimiter=",",
             header=",".join(valid_perf_note_array_fields),
             comments="",
@@ -178,7 +178,7 @@ def save_parangonada_csv(
             os.path.join(outdir, "part.csv"),
             # outdir + os.path.sep + "score_note_array.csv",
             score_note_array[valid_score_note_array_fields],
-            fmt="%.20s",
+            fmt="%s",
             delimiter=",",
             header=",".join(valid_score_note_array_fields),
             comments="",
@@ -187,7 +187,7 @@ def save_parangonada_csv(
             os.path.join(outdir, "align.csv"),
             # outdir + os.path.sep + "align.csv",
             alignarray,
-            fmt="%.20s",
+            fmt="%s",
             delimiter=",",
             header=",".join(alignarray.dtype.names),
             comments="",
@@ -196,7 +196,7 @@ def save_parangonada_csv(
             os.path.join(outdir, "zalign.csv"),
             # outdir + os.path.sep + "zalign.csv",
             zalignarray,
-            fmt="%.20s",
+            fmt="%s",
             delimiter=",",
             header=",".join(zalignarray.dtype.names),
             comments="",
@@ -205,7 +205,7 @@ def save_parangonada_csv(
             os.path.join(outdir, "feature.csv"),
             # outdir + os.path.sep + "feature.csv",
             featurearray,
-            fmt="%.20s",
+            fmt="%s",
             delimiter=",",
             header=",".join(featurearray.dtype.names),
             comments="",
@@ -255,7 +255,7 @@ def save_parangonada_alignment(
         np.savetxt(
             out,
             alignarray,
-            fmt="%.20s",
+            fmt="%s",
             delimiter=",",
             header=",".join(alignarray.dtype.names),
             comments="",
